@@ -3,6 +3,7 @@
 package operator
 
 import (
+	"reduction.dev/reduction/dkv"
 	"reduction.dev/reduction/dkv/kv"
 	"reduction.dev/reduction/partitioning"
 	"reduction.dev/reduction/proto"
@@ -22,4 +23,12 @@ func VerifNewOperatorPartition(r partitioning.KeyGroupRange, neighbors []VerifNe
 		ns[i] = neighborPartition{keyGroupRange: n.KeyGroupRange, operator: n.Operator}
 	}
 	return newOperatorPartition(r, ns)
+}
+
+// VerifSetDB gives an operator constructed with NewOperator the database a deployment would have opened, without running
+// a deployment (verification harness /verif, property C09: HandleNeedsTable of deployed and of not yet deployed operators).
+func VerifSetDB(o *Operator, db *dkv.DB) {
+	o.mu.Lock()
+	o.db = db
+	o.mu.Unlock()
 }
